@@ -403,7 +403,15 @@ def rng_sites(ctx):
 def no_stale(ctx):
     from .common import stale_cache
     return stale_cache(ctx, 'NO-STALE-STATE',
-                       ['Paraxial', 'Aberrations', 'RayGenerator'],
+                       ['Paraxial', 'Aberrations', 'RayGenerator', 'Plane',
+                        'StandardGeometry', 'NewtonRaphsonGeometry',
+                        'EvenAsphere', 'PolynomialGeometry',
+                        'ChebyshevPolynomialGeometry', 'CoordinateSystem',
+                        'MaterialFile', 'Material', 'AbbeMaterial',
+                        'IdealMaterial', 'SimpleCoating', 'FresnelCoating',
+                        'JonesFresnel', 'FFTPSF', 'FFTMTF', 'GeometricMTF',
+                        'Wavefront', 'SpotDiagram', 'ZernikeStandard',
+                        'SurfaceFactory'],
                        'a repeated query depends on what was computed before')
 
 
